@@ -1,8 +1,8 @@
-import Ypv.Drv.Codec
-/-! Driver handler for C15 (stub: replaced by the module that models C15) -/
+import Ypv.Drv.C01
+/-! Driver handler for C15: the evaluator model is served by the C01 handler (`C15.eval` = `C01.eval`). -/
 namespace Ypv.Drv.C15
 open Lean (Json)
 
-def handle (_op : String) (_j : Json) : Except String Json := throw "C15: driver not implemented yet"
+def handle (op : String) (j : Json) : Except String Json := Ypv.Drv.C01.handle op j
 
 end Ypv.Drv.C15
